@@ -8,6 +8,7 @@ GEN = R.from_euler('xyz', [0.3, 1.1, 2.0]).as_matrix()
 TRI_P = np.array([[9.0, 0, 0], [2.5, 8.5, 0], [1.5, 2.0, 9.5]])
 TRI_M = np.array([[9.0, 0, 0], [-3.0, 8.5, 0], [2.0, -2.5, 9.5]])
 ORTHO = np.diag([8.0, 9.5, 11.0])
+TRI_C = np.array([[9.0, 0, 0], [2.5, 9.5, 0], [1.5, 2.0, 8.0]])      # face areas in the opposite order to TRI_P
 CELLS = [
     ('cubic 9', np.diag([9.0, 9.0, 9.0])),
     ('orthorhombic 8x9.5x11', ORTHO),
@@ -15,8 +16,9 @@ CELLS = [
     ('triclinic, mixed-sign tilts', TRI_M),
     ('triclinic, arbitrarily oriented', TRI_P @ GEN.T),
     ('orthogonal vectors rotated off the axes', ORTHO @ GEN.T),
+    ('triclinic, c thinner than b (|a x b| > |b x c| > |a x c|)', TRI_C),
 ]
-CELL_IS_LAMMPS = [True, True, True, True, False, False]
+CELL_IS_LAMMPS = [True, True, True, True, False, False, True]
 
 S3 = 3 ** 0.5
 PATTERNS = {
